@@ -831,6 +831,8 @@ class DMRGBackendImpl(MPSBackendImpl):
         if self.convergence_check(self.energy_tolerance):
             self.current_time = self.target_time
             self.sweep_count = 0  # max_sweeps bounds the sweeps of one time step
+            # the next step has another Hamiltonian: compare its sweeps among themselves
+            self.previous_energy = None
             self.timestep_complete()
         elif self.sweep_count + 1 > self.max_sweeps:
             # not converged
